@@ -60,3 +60,40 @@ package record
 //@   ensures w.meta != nil && w.meta.Deleted > 0 ==> r0 == nil && r1 == nil
 //@   ensures w.meta != nil && w.meta.Deleted <= 0 && (format == 0 || format == w.Format) ==> r0 != nil && r1 == nil
 //@   ensures w.meta == nil ==> r1 != nil
+
+// ---- access permissions (C03)
+// the metadata object of a record (Record.Meta() is assumed stable while a record is being checked and released)
+//@ spec metaOf(r Record) *Meta
+//@ spec permitted(m *Meta, local bool, internal bool) bool = m != nil && !(!local && m.cronjewel) && !(!internal && m.secret)
+
+//@ func (*Meta).CheckPermission
+//@   pure
+//@   ensures permitted == permitted(m, local, internal)
+
+//@ func Record.Meta
+//@   trusted
+//@   pure
+//@   ensures r0 == metaOf(recv)
+//@ func Record.Lock
+//@   trusted
+//@   pure
+//@ func Record.Unlock
+//@   trusted
+//@   pure
+//@ func Record.Key
+//@   trusted
+//@   pure
+//@ func Record.DatabaseName
+//@   trusted
+//@   pure
+//@ func Record.DatabaseKey
+//@   trusted
+//@   pure
+//@ func Record.IsWrapped
+//@   trusted
+//@   pure
+
+//@ func (*Base).Meta
+//@   requires b != nil
+//@   pure
+//@   ensures r0 == b.meta
